@@ -602,7 +602,7 @@ pub fn run(tier: Tier, seed: u64, replay: Option<&std::path::Path>) -> i32 {
     }
     let cases = match tier {
         Tier::Quick => 400,
-        Tier::Thorough => 6_000,
+        Tier::Thorough => 8_000,
     };
     let out = run_sharded("C11", seed, cases, 30, strategy, run_case);
     let report = Report {
